@@ -320,7 +320,7 @@ def scenario_streams(ctx):
     import scenarios
     out = []
     for f in SCEN.get(ctx.pid, []):
-        cs = scenarios.family(f, ctx.quick, share=700)
+        cs = scenarios.family(f, ctx.quick, share=2500)
         if ctx.pid == 'C16':
             # the same documents with a trailing terminator, and in CR LF
             cs = [dict(c, calls=[dict(k, src=k['src'] + t) for k in c['calls']]) for c in cs[::3] for t in ('\n', '\r\n', '\r')] + \
@@ -1163,7 +1163,10 @@ class C07(ExpectSpec):
            ('<b title="*x*">t</b> *y*', 0, '<p><b title="*x*">t</b> <em>y</em></p>', 'tag-not-reinterpreted'),
            ('*[a](u)*', 0, '<p><em><a href="u">a</a></em></p>', 'link-in-quote'), ('[*a*](u)', 0, '<p><a href="u"><em>a</em></a></p>', 'quote-in-caption'),
            ('`[a](u)` `<b>` `&amp;` `http://x.y`', 0, '<p><code>[a](u)</code> <code>&lt;b&gt;</code> <code>&amp;amp;</code> <code>http://x.y</code></p>', 'code-verbatim'),
-           ('![a](i.png) <image:j.png|b> x', 0, '<p><img src="i.png" alt="a"> <img src="j.png" alt="b"> x</p>', 'images')]
+           ('![a](i.png) <image:j.png|b> x', 0, '<p><img src="i.png" alt="a"> <img src="j.png" alt="b"> x</p>', 'images'),
+           ('<_nobody_@example.org> <*me*@example.org> <a~~b~~c@x.org>', 0, '<p><a href="mailto:_nobody_@example.org">_nobody_@example.org</a> <a href="mailto:*me*@example.org">*me*@example.org</a> <a href="mailto:a~~b~~c@x.org">a~~b~~c@x.org</a></p>', 'url-not-reinterpreted'),
+           ('<http://a.b/_x_> http://c.d/*y*z <image:_i_.png>', 0, '<p><a href="http://a.b/_x_">http://a.b/_x_</a> <a href="http://c.d/*y*z">http://c.d/*y*z</a> <img src="_i_.png" alt="_i_.png"></p>', 'url-not-reinterpreted'),
+           ('<image:pic.png|say "hi"> [here](http://x.org/?q="1")', 0, '<p><img src="pic.png" alt="say &quot;hi&quot;"> <a href="http://x.org/?q=&quot;1&quot;">here</a></p>', 'quote-in-attribute')]
 
     def streams(self, ctx):
         rng = ctx.rng('G')
@@ -1223,7 +1226,10 @@ class C10(ExpectSpec):
            ('.... p\n- a\n.... q', 0, '<ol><li>p<ul><li>a</li></ul></li><li>q</li></ol>', 'deepest-markers'),
            ('**** p\n:::: t\na:::: b', 0, None, 'deepest-markers'),
            ('- a\n\n\n- b', 0, '<ul><li>a</li></ul><ul><li>b</li></ul>', 'two-blank-lines-end'),
-           ('- a\n\n- b', 0, '<ul><li>a</li><li>b</li></ul>', 'one-blank-line-continues')]
+           ('- a\n\n- b', 0, '<ul><li>a</li><li>b</li></ul>', 'one-blank-line-continues'),
+           ('A:: x\nB:: see C::: there\nD:: y', 0, '<dl><dt>A</dt><dd>x<dl><dt>B:: see C</dt><dd>there</dd></dl></dd><dt>D</dt><dd>y</dd></dl>', 'last-colon-run-is-the-marker'),
+           ('- a\n\n""\nq\n""\n- c', 0, '<ul><li>a</li></ul><blockquote><p>q</p></blockquote><ul><li>c</li></ul>', 'quote-block-after-blank-ends-list'),
+           ('- a std::vector\n- b x::y', 0, '<ul><li>a std::vector</li><li>b x::y</li></ul>', 'colons-inside-words')]
 
     def gen_case(self, rng):
         src, html = G.list_document(rng)
@@ -1268,7 +1274,10 @@ class C11(Spec):
            ("{m}='a'\nkeep {m=a} this\ndrop {m=b} this\nkeep {m!b} too\ndrop {m!a} too", '<p>keep  this\nkeep  too</p>', 'inclusion'),
            ("{m}='ab'\nx {m=a}y", '<p></p>', 'inclusion-full-match'), ("\\{m} {u|x}", '<p>{m} {u|x}</p>', 'escaped-undefined'),
            ("{a}='A'\n{b}='B'\nx {a} \\{b}", '<p>x A {b}</p>', 'escaped-after-invocation'),
-           ("{a}='A'\n{b}='B'\n{a} \\{b}", '<p>A {b}</p>', 'escaped-after-leading-invocation')]
+           ("{a}='A'\n{b}='B'\n{a} \\{b}", '<p>A {b}</p>', 'escaped-after-leading-invocation'),
+           ("{v}='[$1:$ $1]'\n{v|}", '<p>[ ]</p>', 'empty-default'), ("{v}='[$1:$ $2:x$]'\n{v|a}", '<p>[a x]</p>', 'empty-default'),
+           ("{b}=''\nalpha\n{b!}", '<p>alpha</p>', 'deleted-last-line'), ("alpha\nbeta {--!}", '<p>alpha</p>', 'deleted-last-line'),
+           ("- one\n  two {--!}", '<ul><li>one</li></ul>', 'deleted-last-line'), ("{m}='V'\n\\{m?d} x \\{m|p} \\{m=V} \\{m!V}", '<p>{m?d} x {m|p} {m=V} {m!V}</p>', 'escaped-undefined')]
 
     def search_cases(self, ctx, boost):
         rng = ctx.rng('S')
@@ -1587,6 +1596,11 @@ class C19(Spec):
               ('illegal safeMode API option value', ".safeMode='99'"), ('illegal safeMode API option value', ".safeMode='x'"),
               ('illegal API option name', ".bogus='1'"), ('illegal reset API option value', ".reset='maybe'"),
               ('illegal block option', '.+bogus\npara'), ('illegal block option', "|code|='+nonsense'"),
+              ('illegal block option', '.+Skip\npara'), ('illegal block option', '.-macros2\npara'), ('illegal block option', '.+con_tainer\npara'),
+              ('illegal block option', '.-spans +MACROS\npara'), ('illegal block option', '.cls #i "c:d" +sk1p\npara'),
+              ('undefined macro', 'text {gr\u00f6\u00dfe} more'), ('undefined macro', '- item {\u0446\u0435\u043d\u0430|a}'), ('undefined macro', '# H {caf\u00e9-2}'),
+              ('undefined macro', 't {x1}:: d'), ('illegal API option name', ".safemode='1'"), ('illegal safeMode API option value', ".safeMode='1.5'"),
+              ('illegal delimited block definition', "|division|='<hr>'"), ('unterminated macro-definition', None),
               ('illegal delimited block name', "|bogus|='<a>|</a>'"), ('illegal delimited block definition', "|code|='<a>'"),
               ('illegal replacement regular expression', "/(/='x'"), ('illegal macro regular expression', "{mm}='v'\n{mm=[}"),
               ('-specials block option not valid in safeMode', None), ('duplicate', ".#dup\na\n\n.#dup\nb"),
